@@ -29,6 +29,10 @@ pub struct Query {
     pub kinds_of: Vec<u16>,
     #[serde(default)]
     pub tags_of: Vec<u16>,
+    /// address-style query: author, kind and first single-letter tag of ONE stored event (what a client
+    /// does to fetch an naddr); replaces authors / kinds / tags
+    #[serde(default)]
+    pub address_of: Option<u16>,
     pub since: Option<u64>,
     pub until: Option<u64>,
     pub limit: Option<u32>,
@@ -72,7 +76,7 @@ fn q_time() -> BoxedStrategy<u64> {
 
 pub fn query_strategy() -> BoxedStrategy<Query> {
     let tagc = (
-        prop_oneof![10 => prop::sample::select(vec!["e", "p"]).prop_map(|s| s.to_string()), 3 => prop::sample::select(vec!["t", "a", "d"]).prop_map(|s| s.to_string()), 1 => Just("E".to_string()), 1 => Just("client".to_string()), 1 => Just("".to_string())],
+        prop_oneof![12 => prop::sample::select(vec!["e", "p", "t", "a", "d"]).prop_map(|s| s.to_string()), 1 => Just("E".to_string()), 1 => Just("client".to_string()), 1 => Just("".to_string())],
         prop::collection::vec(prop_oneof![4 => 1u8..4, 1 => 0u8..20], 0..4),
     );
     (
@@ -93,9 +97,10 @@ pub fn query_strategy() -> BoxedStrategy<Query> {
             prop_oneof![2 => Just(Vec::new()), 1 => prop::collection::vec(any::<u16>(), 1..3)],
             prop_oneof![2 => Just(Vec::new()), 1 => prop::collection::vec(any::<u16>(), 1..4)],
             prop_oneof![3 => Just(Vec::new()), 1 => prop::collection::vec(any::<u16>(), 1..3)],
+            prop::option::weighted(0.15, any::<u16>()),
         ),
     )
-        .prop_map(|((ids, authors, kinds, tags), since, until, limit, screen, allow_scraping, allow_if_limited_to, allow_if_max_seconds, (authors_of, kinds_of, tags_of))| {
+        .prop_map(|((ids, authors, kinds, tags), since, until, limit, screen, allow_scraping, allow_if_limited_to, allow_if_max_seconds, (authors_of, kinds_of, tags_of, address_of))| {
             // distinct tag names
             let mut seen = Vec::new();
             let tags = tags
@@ -124,6 +129,7 @@ pub fn query_strategy() -> BoxedStrategy<Query> {
                 authors_of,
                 kinds_of,
                 tags_of,
+                address_of,
             }
         })
         .boxed()
@@ -181,12 +187,15 @@ impl Prop for C05 {
             rebuild: 0,
             extra: 0,
             pressure: 0,
+            mass_delete: 0,
+            big: 0,
         };
         let cfg = EvCfg {
             authors: 3,
             kind_weights: [8, 2, 2, 1, 1],
             tag_values: 3,
-            tag_names: 2,
+            tag_names: 0,
+            narrow: true,
             ..EvCfg::default()
         };
         (history(w, cfg, tier.pick(30, 100)), prop::collection::vec(query_strategy(), 1..8))
@@ -207,6 +216,9 @@ impl Prop for C05 {
             ("multi-value-tag", 0.05),
             ("redaction", 0.03),
         ]
+    }
+    fn release_fraction(&self, tier: Tier) -> f64 {
+        tier.pick(0.3, 0.5)
     }
     fn max_shrink_iters(&self) -> u32 {
         400
@@ -290,6 +302,15 @@ impl Prop for C05 {
                 until: q.until,
                 limit: q.limit,
             };
+            let mut f = f;
+            if let (Some(i), true) = (q.address_of, n > 0) {
+                let e = &w.events[idx16(i, n)];
+                f.ids.clear();
+                f.authors = vec![e.pubkey.clone()];
+                f.kinds = vec![e.kind];
+                f.tags = e.tags.iter().find(|t| t.len() >= 2 && t[0].len() == 1 && t[0].as_bytes()[0].is_ascii_alphabetic()).map(|t| vec![(t[0].clone(), vec![t[1].clone()])]).unwrap_or_default();
+                out.label("address-style-query");
+            }
             let exact_domain = f.tags.iter().all(|(n, _)| n.len() == 1 && n.as_bytes()[0].is_ascii_alphabetic());
             let plan = plan_of(&f);
             out.label(plan);
